@@ -33,6 +33,12 @@ fn note(sz: usize) {
     let _ = ACTIVE.try_with(|a| {
         if a.get() {
             COUNT.with(|c| c.set(c.get() + 1));
+            if sz >= TRACE_AT.load(std::sync::atomic::Ordering::Relaxed) {
+                // debugging aid (VERIF_ALLOC_TRACE=<bytes>): who asked for this much
+                a.set(false);
+                eprintln!("alloc of {} bytes:\n{}", sz, std::backtrace::Backtrace::force_capture());
+                a.set(true);
+            }
             MAXSZ.with(|m| {
                 if (sz as u64) > m.get() {
                     m.set(sz as u64)
@@ -42,16 +48,28 @@ fn note(sz: usize) {
     });
 }
 
+pub static TRACE_AT: std::sync::atomic::AtomicUsize = std::sync::atomic::AtomicUsize::new(usize::MAX);
+
 #[global_allocator]
 static GLOBAL: Counting = Counting;
 
 pub fn start() {
+    if let Some(v) = std::env::var("VERIF_ALLOC_TRACE").ok().and_then(|v| v.parse::<usize>().ok()) {
+        TRACE_AT.store(v, std::sync::atomic::Ordering::Relaxed);
+    }
     COUNT.with(|c| c.set(0));
     MAXSZ.with(|c| c.set(0));
     ACTIVE.with(|a| a.set(true));
 }
 pub fn pause() {
     ACTIVE.with(|a| a.set(false));
+}
+/// pause and return whether counting was on, for `restore` (nesting-safe)
+pub fn suspend() -> bool {
+    ACTIVE.with(|a| a.replace(false))
+}
+pub fn restore(was: bool) {
+    ACTIVE.with(|a| a.set(was));
 }
 pub fn resume() {
     ACTIVE.with(|a| a.set(true));
